@@ -71,11 +71,53 @@ def static_dag(ctx, name, params):
     return ctx.summ(key, params, sty)
 
 
+def total_over_scalar(ctx, rule, sm, an, ty, points=()):
+    """Every panic site of a summary with one scalar input holds on the whole domain of ty: concrete points first (a
+    diagnosable counterexample), then the bound prover, then the site's failure condition as a cell table over ty."""
+    from .base import panic_node
+    from ..evals import prove_obligation
+    rep, pdb = ctx.rep, ctx.pdb
+    obs = [o for o in sm.obligations if not (o.cond[0] == "c" and o.cond[1])]
+    if not obs:
+        rep.ob(rule, "no reachable panic site", True, nontrivial=False)
+        return
+    for o in obs:
+        inst = "%s %s L%s" % (short(o.fn), o.kind, o.line)
+        where = pdb.where(o.fn)
+        v = panic_node([o])
+        if v[0] == "c":
+            rep.ob(rule, inst, not v[1], "panic site (%s) is reached and fails for every input" % o.kind, where)
+            continue
+        bad = None
+        for x in points:
+            try:
+                if cval(ctx.fold(v, {an: x})):
+                    bad = x
+            except (IndexError, KeyError, ZeroDivisionError):
+                bad = x
+            if bad is not None:
+                break
+        if bad is not None:
+            rep.ob(rule, inst, False, "panic site (%s, line %s) in %s is reached and fails for %s = %#x" % (o.kind, o.line, short(o.fn), an, bad), where)
+            continue
+        if prove_obligation(pdb, o.cond):
+            rep.ob(rule, inst, True)
+            continue
+        try:
+            cells, _n = cell_table(pdb, v, an, ty)
+        except CellsRefused as e:
+            rep.uncertified(rule, "panic site %s could not be decided over all of %s (%s)" % (inst, ty, e), where)
+            continue
+        badc = [(lo, hi) for (lo, hi), val, ident in cells if ident or cval(val) != 0]
+        rep.ob(rule, inst, not badc, "panic site (%s, line %s) in %s is reached and fails for %s in [%#x, %#x]" % ((o.kind, o.line, short(o.fn), an) + (badc[0] if badc else (0, 0))), where)
+
+
 def check_filter_cells(ctx, rule, key, sty, words):
     """filter as a cell table over all 2^32 words: identity on exactly the 52 cards, blank elsewhere."""
     rep = ctx.rep
     w = atom("w", "u32")
     s_ = ctx.summ(key, [("v", w)], sty)
+    total_over_scalar(ctx, rule + ".no-panic", s_, "w", "u32", [0] + list(words) + near_miss_words(words)[:4000])
     try:
         cells, nconst = cell_table(ctx.pdb, s_.ret, "w", "u32")
     except CellsRefused as e:
@@ -252,7 +294,8 @@ def check_C10(ctx):
                 n += 1
         rep.floor("C10.create", n, 70)
         rep.sample({"rule": "C10.create", "pairs": n, "example": "create(ACE, SPADES) = %#x" % oracle.card_word(12, 3)})
-    ctx.guard("C10.create", create)
+    with ctx.total("C10.no-panic"):
+        ctx.guard("C10.create", create)
 
     # filter over all 2^32 words (both entry points)
     def filt():
@@ -304,13 +347,15 @@ def check_C10(ctx):
             c = ctx.guard("C10.accessor." + name, one)
             n += c or 0
         rep.floor("C10.accessor", n, 53 * len(table))
-    accessors()
+    with ctx.total("C10.no-panic"):
+        accessors()
 
     # CardSuit::binary_signature
     def sig():
         key = pdb.inherent(SUIT_ENUM, "binary_signature")
         for v in pdb.adt(SUIT_ENUM)["variants"]:
-            res = ctx.summ(key, [("r", ctx.enum_val(SUIT_ENUM, v["name"]))]).ret
+            with ctx.total("C10.no-panic"):
+                res = ctx.summ(key, [("r", ctx.enum_val(SUIT_ENUM, v["name"]))]).ret
             si = oracle.CARD_SUIT_ENUM.get(v["name"])
             exp = (1 << (12 + si)) if si is not None else 0
             rep.ob("C10.binary_signature", v["name"], cval(res) == exp, "binary_signature(%s) = %s expected %#x" % (v["name"], cval(res), exp), pdb.where(key))
@@ -405,6 +450,41 @@ def check_C20(ctx):
         rep.sample({"rule": "C20.fold", "cards": 52, "mark_combinations": 8, "example": "ACE_SPADES|PAIR = %#x" % (cards["ACE_SPADES"] | 1 << 29)})
     ctx.guard("C20.fold", fold)
 
+    # marking, stripping and reading never panic on a card carrying any combination of marks: the
+    # operations are total on the property's whole space (52 cards x 8 mark combinations), in the checked profile too (debug assertions, overflow)
+    def no_panic():
+        words = list(cards.values())
+        space = [w | (combo << 29) for w in words for combo in range(8)]
+        names = ["flag_as_pair", "flag_as_trips", "flag_as_quads", "strip_multiples_flags", "get_rank_flag", "get_rank_bit", "get_rank_prime",
+                 "get_suit_flag", "get_suit_bit", "get_card_rank", "get_card_suit", "get_rank_char", "get_suit_char"]
+        n = 0
+        for name in names:
+            def one(name=name):
+                key, sty = self_u32(ctx, name)
+                sm = ctx.summ(key, [("r", atom("w", "u32"))], sty)
+                for o in sm.obligations:
+                    bad = None
+                    if o.cond[0] == "c":
+                        if not o.cond[1] and all(c[0] == "c" and c[1] for c in o.pc):
+                            bad = space[0]
+                        elif not o.cond[1]:
+                            for w in space:
+                                if all(cval(ctx.fold(c, {"w": w})) for c in o.pc):
+                                    bad = w
+                                    break
+                    else:
+                        for w in space:
+                            if all(cval(ctx.fold(c, {"w": w})) for c in o.pc) and not cval(ctx.fold(o.cond, {"w": w})):
+                                bad = w
+                                break
+                    rep.ob("C20.no-panic", "%s %s L%s" % (name, o.kind, o.line), bad is None,
+                           "%s panics (%s) on the word %#x = card %#x with marks %d" % (name, o.kind, bad or 0, (bad or 0) & 0x1FFFFFFF, (bad or 0) >> 29), pdb.where(o.fn))
+                rep.ob("C20.no-panic", name, True, "", nontrivial=False)
+            ctx.guard("C20.no-panic." + name, one)
+            n += 1
+        rep.floor("C20.no-panic", n, 13)
+    no_panic()
+
 
 def result_deps(pdb, dag):
     """Input bits the *result* can depend on: bit formulas of integer results and of every branch condition that
@@ -485,8 +565,10 @@ def check_C14(ctx):
     def from_ckc():
         key, sty = ctx.method("u64", "from_ckc", BC)
         w = atom("w", "u32")
-        dag = ctx.summ(key, [("v", w)], sty).ret
+        sm_ = ctx.summ(key, [("v", w)], sty)
+        dag = sm_.ret
         expect = {oracle.card_word(r, s_): 1 << (51 - i) for i, (r, s_) in enumerate(order)}
+        total_over_scalar(ctx, "C14.from_ckc.no-panic", sm_, "w", "u32", [0] + list(expect) + near_miss_words(list(expect))[:4000])
         try:
             cells, nconst = cell_table(pdb, dag, "w", "u32")
         except CellsRefused as e:
@@ -514,8 +596,11 @@ def check_C14(ctx):
     def from_bc():
         key, sty = ctx.method("u32", "from_binary_card", PC)
         b = atom("b", "u64")
-        dag = ctx.summ(key, [("v", b)], sty).ret
+        sm_ = ctx.summ(key, [("v", b)], sty)
+        dag = sm_.ret
         expect = {1 << (51 - i): oracle.card_word(r, s_) for i, (r, s_) in enumerate(order)}
+        total_over_scalar(ctx, "C14.from_binary_card.no-panic", sm_, "b", "u64",
+                          [0, (1 << 64) - 1] + [1 << i for i in range(64)] + [(1 << i) | (1 << j) for i in range(64) for j in range(i)])
         try:
             cells, nconst = cell_table(pdb, dag, "b", "u64")
         except CellsRefused as e:
@@ -616,20 +701,9 @@ def check_C18(ctx):
             else:
                 rep.ob("C18.deck-get", "cell [%d,%d]" % (lo, hi), False, "cell straddles the end of the deck", pdb.where(kget))
         rep.ob("C18.deck-get", "domain", total == 1 << 64, "cells cover %d of 2^64 indexes" % total)
-        # bounds obligation of the table read
-        for o in s_.obligations:
-            if o.kind == "BoundsCheck":
-                # the index must be < len under its path condition: fold the path condition over the in-range cell only
-                okall = True
-                for v in list(range(0, 60)) + [255, 256, 1 << 32, (1 << 64) - 1]:
-                    env = {"i": v}
-                    try:
-                        pcv = all(cval(evaluate(pdb, c, env)) for c in o.pc)
-                    except Exception:
-                        pcv = True
-                    if pcv and not cval(evaluate(pdb, o.cond, env)):
-                        okall = False
-                rep.ob("C18.deck-get", "bounds L%s" % o.line, okall, "table read can be out of bounds", pdb.where(kget))
+        # panic sites (bounds of the table read, overflow, asserts) over all usize
+        total_over_scalar(ctx, "C18.deck-get.no-panic", s_, "i", "usize",
+                          list(range(0, 60)) + [255, 256, 257, 1 << 16, 1 << 31, (1 << 32) - 1, 1 << 32, (1 << 32) + 1, (1 << 32) + 51, (1 << 32) + 52, 1 << 63, (1 << 64) - 1])
         rep.sample({"rule": "C18.deck-get", "cells": [[lo, hi] for lo, hi in cells], "domain": "2^64"})
     ctx.guard("C18.deck", deck)
 
@@ -858,8 +932,9 @@ def check_C11(ctx):
             k_in, sty1 = ctx.method(path, "sort_in_place", HV)
             k_cp, sty2 = ctx.method(path, "sort", HV)
             h = ctx.hand(path, n)
-            s_in = ctx.summ(k_in, [("r", h)], sty1)
-            s_cp = ctx.summ(k_cp, [("r", h)], sty2)
+            with ctx.total("C11.no-panic"):
+                s_in = ctx.summ(k_in, [("r", h)], sty1)
+                s_cp = ctx.summ(k_cp, [("r", h)], sty2)
             out_in = s_in.outs[0]
             out_cp = s_cp.ret
             rep.ob("C11.sort-pure", short(path) + ".sort", s_cp.outs[0] is h, "sort() modifies its receiver", pdb.where(k_cp))
@@ -918,7 +993,22 @@ def arr_of(v):
     return None
 
 
+def word_envs(n, with_x, prefix="s"):
+    """bindings of n slot atoms (and the setter argument x) with cards, blank, corrupt and extreme words"""
+    import random
+    rnd = random.Random(19)
+    base = [0, 0xFFFFFFFF, 0x10008C29, 0x18002, 0x20000000 | 0x10008C29, 1, 0x80000000]
+    out = []
+    for t in range(24):
+        env = {"%s%d" % (prefix, i): (base[(t + i) % len(base)] if t < 8 else rnd.choice(base + [rnd.getrandbits(32)])) for i in range(n)}
+        if with_x:
+            env["x"] = base[t % len(base)] if t < 8 else rnd.getrandbits(32)
+        out.append(env)
+    return out
+
+
 def check_C19(ctx):
+    from .base import panic_free
     rep, pdb = ctx.rep, ctx.pdb
     nset = nget = 0
     for path, n in CONTAINERS:
@@ -931,6 +1021,7 @@ def check_C19(ctx):
             def setter(k=k):
                 key = pdb.inherent(path, "set_" + ORD_NAMES[k])
                 s_ = ctx.summ(key, [("r", h), ("v", x)])
+                panic_free(ctx, "C19.no-panic", s_, word_envs(n, True), False, "%s::set_%s" % (short(path), ORD_NAMES[k]))
                 got = arr_of(s_.outs[0])
                 exp = list(sa)
                 exp[k] = x
@@ -945,6 +1036,7 @@ def check_C19(ctx):
                 else:
                     key, sty = pdb.inherent(path, ORD_NAMES[k]), None
                 s_ = ctx.summ(key, [("r", h)], sty)
+                panic_free(ctx, "C19.no-panic", s_, word_envs(n, False), False, "%s::%s" % (short(path), ORD_NAMES[k]))
                 rep.ob("C19.getter", "%s::%s" % (short(path), ORD_NAMES[k]), s_.ret is sa[k] and s_.outs[0] is h,
                        "%s() must return slot %d unchanged; returns %s" % (ORD_NAMES[k], k, describe_slots([s_.ret])), pdb.where(key))
             ctx.guard("C19.getter", getter)
@@ -952,7 +1044,9 @@ def check_C19(ctx):
 
         def whole():
             key = pdb.inherent(path, "to_arr")
-            r = ctx.summ(key, [("r", h)]).ret
+            sm_ = ctx.summ(key, [("r", h)])
+            panic_free(ctx, "C19.no-panic", sm_, word_envs(n, False), False, "%s::to_arr" % short(path))
+            r = sm_.ret
             got = arr_of(r)
             rep.ob("C19.to_arr", short(path), got is not None and len(got) == n and all(g is e for g, e in zip(got, sa)), "to_arr() returns %s" % describe_slots(got), pdb.where(key))
             key, sty = ctx.method(path, "iter", HV)
@@ -1059,6 +1153,21 @@ def check_selection(ctx, rule, path, n):
             got = cval(ctx.fold(res[j], env))
             rep.ob(rule, "%s slot %d index %d" % (short(path), j, v), got == 1000 + v, "five_from_permutation: slot %d with index %d reads slot %s of the hand" % (j, v, (got - 1000) if got is not None else "?"), pdb.where(key))
             cnt += 1
+    # in-range index tuples never panic (bounds checks of the slot reads), whatever the slots hold
+    import random
+    from .base import panic_free
+    rnd = random.Random(5)
+    envs = []
+    for sl in word_envs(n, False)[:6]:
+        for v in range(n):
+            e = dict(sl)
+            e.update({"p%d" % i: v for i in range(5)})
+            envs.append(e)
+        for _ in range(8):
+            e = dict(sl)
+            e.update({"p%d" % i: rnd.randrange(n) for i in range(5)})
+            envs.append(e)
+    panic_free(ctx, rule + ".no-panic", s_, envs, True, "%s::five_from_permutation" % short(path))
     rep.sample({"rule": rule, "container": short(path), "index_tuples_covered": n ** 5, "folds": cnt})
     return s_
 
